@@ -11,7 +11,8 @@ E(par, prop, form, ty, n) == [par |-> par, prop |-> prop, form |-> form, v |-> [
 Base == {E("mp", "value", "B", "int", 6), E("n", "value", "B", "int", 10)}
 NodeCfgs == <<
   Base \cup {E("a", "value", "P", "int", 100)},                                   \* 1 healthy, writes a and n
-  Base \cup {E("a", "max", "P", "int", 120), E("b", "value", "B", "int", 10)},     \* 2 healthy, limit override
+  Base \cup {E("a", "max", "P", "int", 120), E("b", "value", "B", "int", 10),      \* 2 healthy, limit overrides; the
+             E("s", "value", "P", "str", 24), E("s", "max", "P", "int", 64)},       \*   string only fits the overridden maxchars
   Base \cup {E("a", "value", "B", "int", 300)},                                   \* 3 outside (loose)
   Base \cup {E("a", "value", "B", "str", 0)},                                     \* 4 wrong type
   Base \cup {E("zz", "value", "B", "int", 2), E("a", "foo", "P", "int", 2)},       \* 5 two errors
